@@ -333,7 +333,7 @@ class PDPRuinRepairEnv(ImprovementEnvBase):
 
         # update action record
         if solution_to is None:
-            action_record[:, :-1] = action_record[:, 1:]
+            action_record[:, :-1] = action_record[:, 1:].clone()
             action_record[:, -1] *= 0
             action_record[torch.arange(bs), -1, action[:, 0]] = 1
 
